@@ -114,6 +114,7 @@ type Profile struct {
 	Adversarial int // percent of events drawn from the adversarial pool
 	Replicas    []int64  // replica counts for new stores (default 1..3)
 	LateNodes   []string // accounts that may register as nodes later in the trace
+	RenewMulti  int      // percent of renewals that name several models of the owner (default 25)
 	ForcePush   int      // percent of updates that are force-pushes (default 25)
 	Staking     bool     // run x/staking's end-blocker too (profiles with staking messages)
 	ShortBlocks bool     // keep block advances short (reward traces stay inside the exact fragment)
@@ -590,7 +591,7 @@ func (d *Driver) Next() Event {
 			// a provider moves (nearly) all its money away: later pledges are taken as recorded debt
 			n := d.pick(d.P.Nodes)
 			bal := d.St.Bal[n]
-			keep := int64(d.R.Intn(4))
+			keep := int64(5 + d.R.Intn(8)) // enough for a first shard pledge, not for a renewal top-up
 			if bal <= keep+1 {
 				continue
 			}
@@ -637,10 +638,15 @@ func (d *Driver) Next() Event {
 			m := d.St.Metas[d.R.Intn(len(d.St.Metas))]
 			cr, pv := d.gatewayFor(d.R)
 			datas := []string{m.Data}
-			if d.R.Intn(4) == 0 && len(d.St.Metas) > 1 {
-				m2 := d.St.Metas[d.R.Intn(len(d.St.Metas))]
-				if m2.Data != m.Data && m2.Owner == m.Owner {
-					datas = append(datas, m2.Data)
+			multi := d.P.RenewMulti
+			if multi == 0 {
+				multi = 25
+			}
+			if d.R.Intn(100) < multi && len(d.St.Metas) > 1 {
+				for _, m2 := range d.St.Metas {
+					if m2.Data != m.Data && m2.Owner == m.Owner && d.R.Intn(3) != 0 {
+						datas = append(datas, m2.Data)
+					}
 				}
 			}
 			return Event{Kind: "Renew", Creator: cr, Provider: pv, Owner: m.Owner, Signer: m.Owner, Datas: datas, Dur: d.pickI(d.P.Durs), Timeout: d.pickI(d.P.Timeouts)}
@@ -902,6 +908,13 @@ func (d *Driver) Run(n int) {
 		return
 	}
 	d.Setup()
+	if d.P.Name == "poor" {
+		for _, nd := range d.P.Nodes {
+			if bal := d.St.Bal[nd]; bal > 14 {
+				d.do(Event{Kind: "Send", Creator: nd, Acc: "a12", Amount: bal - int64(6+d.R.Intn(8))})
+			}
+		}
+	}
 	for i := 0; i < n && d.Stop == ""; i++ {
 		e := d.Next()
 		if e.Kind != "Blocks" && d.R.Intn(100) < d.P.Adversarial {
